@@ -98,12 +98,17 @@ class UpdateReferences:
       elif isinstance(elem, gfapy.OrientedLine):
         if elem.line is oldref:
           if hasattr(oldref, "_complement_ends") and newref is not None and \
-              oldref._complement_ends(newref) and \
-              not (oldref.from_end == newref.from_end and
-                   oldref.to_end == newref.to_end):
-            # the real link is written in the complement form of the
-            # placeholder (whose overlap may be unspecified)
-            elem.orient = gfapy.invert(elem.orient)
+              oldref._complement_ends(newref):
+            if not (oldref.from_end == newref.from_end and
+                    oldref.to_end == newref.to_end):
+              # the real link is written in the complement form of the
+              # placeholder (whose overlap may be unspecified)
+              elem.orient = gfapy.invert(elem.orient)
+            elif oldref.overlap and newref.overlap and \
+                oldref.overlap != newref.overlap:
+              # a link from an end to the same end: the two forms differ
+              # in the overlap only
+              elem.orient = gfapy.invert(elem.orient)
           elem.line = newref
           found = True
     if newref is None and found:
